@@ -41,7 +41,7 @@ class Embed:
 def make_job(method, noise):
     def fn(E, rep, tier):
         B, d = 2, 2
-        m = 1 if noise == 'scalar' else 2
+        m = 1 if noise == 'scalar' else (2 if noise == 'diagonal' else 3)
         st = X.SDE_TYPE[method]
         tag = f'C17/{method}[{noise}->general,B={B},d={d},m={m}]'
         rep.under_contract('torchsde._core.base_sde.ForwardSDE.__init__', 'torchsde._core.base_sde.ForwardSDE.prod_diagonal',
